@@ -17,6 +17,7 @@ PREFIXES = ["ex", "ex2", "other", "ex_1", "dn", "p", "Q-1", "ex_2", "zz", "dn_1"
 LOCALS = ["e1", "e2", "a1", "a2", "ag1", "b/1", "x.y", "x-y", "été", "_u", "1st", "r1", "r2", "c1", "pl1"]
 ATTR_LOCALS = ["tag", "tag2", "v", "n_1", "été"]
 PROV_EXTRA = ["type", "label", "value", "location", "role"]
+PROV_UNKNOWN = ["generatedAtTime", "atTime", "note", "Timeline"]   # names in the PROV namespace that PROV-DM does not define as attributes
 
 # kind -> (factory name, formal attribute local names in order)
 KINDS = {
@@ -160,6 +161,9 @@ class Gen:
                    "hexBinary": "0FB7", "date": "2020-01-02", "unsignedByte": "255", "token": "a b"}
             if self.p["qname_literal"]:
                 lex["QName"] = "ex:q"
+            if self.p["custom_datatypes"] and self.p.get("istr_nolang", True) and r.random() < 0.06:
+                # the datatype a language tag implies, given explicitly and without a tag
+                return {"k": "lit", "v": self.rand_str(), "dt": {"form": "prov", "local": "InternationalizedString"}}
             if self.p["custom_datatypes"] and r.random() < 0.35:
                 return {"k": "lit", "v": self.rand_str(), "dt": self.rand_name(scope, forms=("qn",), locals_=["dt", "T1"])}
             t = r.choice(sorted(lex))
@@ -252,6 +256,14 @@ class Gen:
             how = self.r.choice(["ctor_id", "ctor_id", "attach_id"])
             ident = self.rand_name(t, forms=("qn",), locals_=["b%d" % i, "sb%d" % i, "b"])
             op = ["sbundle", t, ident if how == "ctor_id" else None]
+            if self.r.random() < 0.4:
+                nss = []
+                for _ in range(self.r.randint(1, 2)):
+                    pfx, u = self.r.choice(self.p["prefixes"]), self.r.choice(self.p["ns_uris"])
+                    if pfx not in [x[0] for x in nss]:
+                        nss.append([pfx, u])
+                        self._note_ns(t, pfx, u)
+                op += [nss, self.r.choice(["dict", "list"])]
             self.pending_attach.append((t, None if how == "ctor_id" else self.rand_name("D", locals_=["b%d" % i, "b"])))
         else:
             op = ["bundle", t, self.rand_name("D", locals_=["b%d" % i, "bundle/%d" % i, "b"])]
@@ -272,6 +284,8 @@ class Gen:
                 an = r.choice(extras)[0]  # second value for the same attribute
             elif r.random() < 0.5:
                 an = {"form": "str", "s": "prov:" + r.choice(PROV_EXTRA)}
+                if self.p.get("prov_unknown_attrs", True) and r.random() < 0.06:
+                    an = {"form": "str", "s": "prov:" + r.choice(PROV_UNKNOWN)}
             else:
                 an = self.rand_name(t, forms=tuple(f for f in self.p["name_forms"] if f != "uri") or ("qn",),
                                     locals_=self.p["attr_locals"])
@@ -292,6 +306,10 @@ class Gen:
         """A formal reference argument: sometimes the record object itself, else a name."""
         r = self.r
         cands = [l for (l, k, tt) in self.rec_labels if tt == t and (want_kind is None or k == want_kind) and k in ELEMENTS]
+        if len(self.targets) > 1 and r.random() < 0.3:
+            # the record object of an element of *another* container (document level from a bundle, a sibling bundle, a stand-alone
+            # bundle): its identifier was resolved in another namespace scope
+            cands = [l for (l, k, tt) in self.rec_labels if (want_kind is None or k == want_kind) and k in ELEMENTS]
         if cands and r.random() < self.p["p_record_ref"]:
             return {"form": "rec", "label": r.choice(cands)}
         if self.used_ids and r.random() < 0.5:
@@ -376,6 +394,15 @@ class Gen:
         ops = []
         self.scopes["D"] = {"declared": {}, "default": None}
         self.targets = ["D"]
+        if r.random() < 0.2:
+            # namespaces handed to the constructor, as a list of Namespace objects or as a {prefix: uri} dict
+            nss = []
+            for _ in range(r.randint(1, 3)):
+                pfx, u = r.choice(self.p["prefixes"]), r.choice(self.p["ns_uris"])
+                if pfx not in [x[0] for x in nss]:
+                    nss.append([pfx, u])
+                    self._note_ns("D", pfx, u)
+            ops.append(["docinit", nss, r.choice(["dict", "list"])])
         if r.random() < self.p["p_default_doc"]:
             ops.append(self.op_dns("D"))
         for _ in range(r.randint(0, 3)):
